@@ -74,6 +74,11 @@ def run (caseToks impl : List String) : String :=
   | ["dec", proto, bytes] => dec proto bytes impl
   | ["kv", bytes] => kv bytes impl
   | ["h2dec", bytes] => h2dec bytes impl
+  | ["contain", _, _] =>
+    -- containment run (support): the probe client must have been answered after this malformed connection
+    (match impl with
+     | [o] => s!"{if o == "ok" then "A" else "D"} {if o == "ok" then "S" else "V"} ok"
+     | _ => "E E bad-case")
   | _ => "E E unknown-kind"
 
 end MosnVerif.Drive.C08
